@@ -238,13 +238,24 @@ func (eval Evaluator) InitOutputUnaryOp(op0, opOut *Element[ring.Poly]) (degree,
 // shared with the receiver and the temporary buffers are reallocated. The receiver and the returned
 // evaluators can be used concurrently.
 func (eval Evaluator) ShallowCopy() *Evaluator {
+
+	// The map of automorphism indexes is filled lazily by CheckAndGetGaloisKey:
+	// each copy needs its own map (the index tables themselves are read-only).
+	var automorphismIndex map[uint64][]uint64
+	if eval.automorphismIndex != nil {
+		automorphismIndex = make(map[uint64][]uint64, len(eval.automorphismIndex))
+		for galEl, index := range eval.automorphismIndex {
+			automorphismIndex[galEl] = index
+		}
+	}
+
 	return &Evaluator{
 		params:            eval.params,
 		Decomposer:        eval.Decomposer,
 		BasisExtender:     eval.BasisExtender.ShallowCopy(),
 		EvaluatorBuffers:  NewEvaluatorBuffers(eval.params),
 		EvaluationKeySet:  eval.EvaluationKeySet,
-		automorphismIndex: eval.automorphismIndex,
+		automorphismIndex: automorphismIndex,
 	}
 }
 
